@@ -221,9 +221,27 @@ func runC12(c *eng.Ctx, thorough bool) {
 					}
 					recv := eng.ExprDeep(sv.Call.Value)
 					arg := eng.ExprDeep(sv.Call.Args[0])
-					if strings.Contains(recv, "NamespaceView(c, me.Namespace)") || strings.Contains(recv, "NamespaceScopedView(c.barrier, me.Namespace)") {
+					// the parent view is the namespace view of the entry's own namespace: NamespaceView(me.Namespace) or
+					// NamespaceScopedView(c.barrier, me.Namespace), called directly or through a forwarding closure,
+					// the namespace read from the entry parameter directly or through a local alias
+					nss, storages, followed := c12gNamespaceOfView(sv.Call.Value)
+					okNS := followed && len(nss) > 0 && len(f.Params) == 2
+					for _, nsv := range nss {
+						if okNS && !c12gFieldOfParam(nsv, "Namespace", f.Params[1]) {
+							okNS = false
+						}
+					}
+					for _, st := range storages {
+						if ok, _, _ := eng.OriginsMatch(st, `^field:c\.barrier$`, `^field:\^?c\.barrier$`); okNS && !ok {
+							okNS = false
+						}
+					}
+					switch {
+					case okNS:
 						c.OK(f, "view rooted in the entry's namespace", ret.Pos(), recv)
-					} else {
+					case !followed:
+						c.Undecided(f, "view rooted in the entry's namespace", ret.Pos(), "the parent view "+recv+" is not a (forwarded) call of Core.NamespaceView / NamespaceScopedView (moved?); the rule cannot be evaluated")
+					default:
 						c.Violation(f, "view rooted in the entry's namespace", ret.Pos(), "the parent view is "+recv+", expected the namespace view of me.Namespace", nil)
 					}
 					if strings.Contains(arg, "me.UUID") || arg == `"sys/"` || arg == `"sys/token/"` {
@@ -283,7 +301,16 @@ func runC12(c *eng.Ctx, thorough bool) {
 				continue
 			}
 			c.Clause("R2", "C12.2")
-			c.Cut(f, "underlying "+m, instrsOf(under), eng.GCallOK(f, v.sanity), nil)
+			// calls of the view's own check / expand methods: direct, or through a method value bound in this function
+			sanityFn := v.typ + "." + strings.TrimSuffix(v.sanity[strings.LastIndex(v.sanity, `\.`)+2:], "$")
+			expandFn := v.typ + "." + strings.TrimSuffix(v.expand[strings.LastIndex(v.expand, `\.`)+2:], "$")
+			scs, exs := c12gMethodCalls(f, sanityFn), c12gMethodCalls(f, expandFn)
+			sg := eng.Guard{Desc: "success edge of " + v.sanity}
+			for _, sc := range scs {
+				sg.Edges = append(sg.Edges, eng.CallOKEdges(sc.call)...)
+				sg.Pass = append(sg.Pass, sc.call)
+			}
+			c.Cut(f, "underlying "+m, instrsOf(under), sg, nil)
 			c.Clause("R5", "C12.2")
 			for _, u := range under {
 				a := u.Common().Args
@@ -297,15 +324,18 @@ func runC12(c *eng.Ctx, thorough bool) {
 					}
 					key = ks[0]
 				}
-				c.Prov(f, "key given to the underlying storage", u, key, `^call:`+strings.TrimSuffix(v.expand, "$")+`$`)
+				c.Prov(f, "key given to the underlying storage", u, key, `^call:`+strings.TrimSuffix(v.expand, "$")+`$`, `^call:closure:`+strings.TrimSuffix(v.expand, "$")+`\$bound$`)
 			}
 			// the key checked is the key used
-			for _, sc := range eng.Calls(f, v.sanity) {
-				for _, ex := range eng.Calls(f, v.expand) {
-					if eng.ExprDeep(sc.Common().Args[1]) == eng.ExprDeep(ex.Common().Args[1]) {
-						c.OK(f, "key checked == key expanded", sc.Pos(), eng.ExprDeep(sc.Common().Args[1]))
+			for _, sc := range scs {
+				for _, ex := range exs {
+					if len(sc.args) == 0 || len(ex.args) == 0 {
+						continue
+					}
+					if sc.args[0] == ex.args[0] || eng.ExprDeep(sc.args[0]) == eng.ExprDeep(ex.args[0]) {
+						c.OK(f, "key checked == key expanded", sc.call.Pos(), eng.ExprDeep(sc.args[0]))
 					} else {
-						c.Violation(f, "key checked == key expanded", sc.Pos(), "sanity check on "+eng.ExprDeep(sc.Common().Args[1])+" but "+eng.ExprDeep(ex.Common().Args[1])+" is expanded", nil)
+						c.Violation(f, "key checked == key expanded", sc.call.Pos(), "sanity check on "+eng.ExprDeep(sc.args[0])+" but "+eng.ExprDeep(ex.args[0])+" is expanded", nil)
 					}
 				}
 			}
@@ -609,7 +639,60 @@ func c12RouteLookups(c *eng.Ctx) {
 			}
 		}
 		if !hasCtx {
-			continue // Mount/Unmount/Remount/Get take full prefixes; Mount's own qualification is checked above
+			// Mount/Unmount/Remount/Get take full prefixes; Mount's own qualification is checked above.
+			// A helper that is handed the namespace instead of the context (lookup extracted from a
+			// context-taking method): its key leads with that parameter's Path, and every caller hands
+			// it the namespace of its own context
+			var nsParam *ssa.Parameter
+			nsIdx := -1
+			for i, p := range top.Params {
+				if structTypeName(p.Type()) == "namespace.Namespace" {
+					nsParam, nsIdx = p, i
+				}
+			}
+			if nsParam == nil || f != top {
+				continue
+			}
+			var lookups []ssa.CallInstruction
+			for _, cl := range eng.Calls(f, `go-radix\.Tree\)\.(LongestPrefix|WalkPrefix|WalkPath)$`) {
+				if onRoot(cl) {
+					lookups = append(lookups, cl)
+				}
+			}
+			if len(lookups) == 0 {
+				continue
+			}
+			for _, cl := range lookups {
+				var bad []string
+				leaves := c12LeftLeaves(cl.Common().Args[1])
+				for _, l := range leaves {
+					if ld, base := c14LoadOfField(l, "Path"); ld == nil || base != ssa.Value(nsParam) {
+						bad = append(bad, eng.Expr(l))
+					}
+				}
+				site := "mount-tree lookup keyed by <namespace parameter>.Path + path"
+				if len(bad) > 0 || len(leaves) == 0 {
+					c.Violation(f, site, cl.Pos(), "the key "+eng.ExprDeep(cl.Common().Args[1])+" does not lead with the Path of the namespace the helper is given (leading operand(s): "+strings.Join(bad, ", ")+")", nil)
+				} else {
+					c.OK(f, site, cl.Pos(), eng.ExprDeep(cl.Common().Args[1]))
+				}
+			}
+			hm, _ := c.P.StaticCallee(eng.FuncName(f))
+			callers := c.P.FindCalls(hm, nil)
+			for _, s := range callers {
+				a := s.Call.Common().Args
+				site := "namespace handed to the lookup helper = namespace of the caller's context"
+				if nsIdx < len(a) && c12gIsCtxNamespace(a[nsIdx]) {
+					c.OK(s.Fn, site, s.Call.Pos(), eng.ExprDeep(a[nsIdx]))
+					n += len(lookups)
+					if eng.FuncName(eng.TopFunc(s.Fn)) == "routing.(*Router).routeCommon" {
+						nRoute += len(lookups)
+					}
+				} else {
+					c.Violation(s.Fn, site, s.Call.Pos(), "the mount-tree lookup helper "+eng.FuncName(f)+" is handed a namespace that is not read out of namespace.FromContext of the caller's context: a request made inside a namespace would be matched against another namespace's mounts", nil)
+				}
+			}
+			continue
 		}
 		for _, cl := range eng.Calls(f, `go-radix\.Tree\)\.(LongestPrefix|WalkPrefix|WalkPath)$`) {
 			if !onRoot(cl) {
